@@ -398,7 +398,7 @@ def check_integral_rotation(ctx, rid):
     rx = [sp.Symbol(f"rx{k}") for k in range(4)]
     R = [[sp.Symbol(f"R{a}{b}") for b in range(3)] for a in range(3)]
     RX = [[sp.Symbol(f"X{a}{b}") for b in range(3)] for a in range(3)]
-    w, wxh, combos = rotint.interpret_rotation(f, ri, rx, R, RX)
+    w, wxh, combos = rotint.interpret_rotation(f, ri, rx, R, RX, repo=repo)
     if sorted(w) != list(range(100)) or sorted(wxh) != list(range(10)):
         raise AnalysisError(f"w_withquaternion: {len(w)} / {len(wxh)} packed elements interpreted")
     conv = (-1, -1)
